@@ -40,9 +40,23 @@ type e2eServer struct {
 	port int
 	n    uint32
 	s    *server.Standalone
+	rl   *relay
 }
 
-func (e *e2eServer) start() error {
+// restart stops the server and starts it again over the same directories; clients are cut off by the relay for the
+// whole time and let in again only when the server is completely up.
+func (e *e2eServer) restart() error {
+	e.rl.pause()
+	time.Sleep(30 * time.Millisecond) // let the read goroutines of the server finish closing their iterators
+	e.stop()
+	if err := e.startServer(); err != nil {
+		return err
+	}
+	e.rl.resume()
+	return nil
+}
+
+func (e *e2eServer) startServer() error {
 	cfg := server.NewTestConfig(e.dir)
 	cfg.DataDir = filepath.Join(e.dir, "db")
 	cfg.WalDir = filepath.Join(e.dir, "wal")
@@ -63,6 +77,14 @@ func (e *e2eServer) start() error {
 	return err
 }
 
+func (e *e2eServer) shutdown() {
+	if e.rl != nil {
+		e.rl.close()
+	}
+	time.Sleep(30 * time.Millisecond)
+	e.stop()
+}
+
 // stop closes the server if it is running.
 func (e *e2eServer) stop() {
 	if e.s != nil {
@@ -71,7 +93,22 @@ func (e *e2eServer) stop() {
 	}
 }
 
-func (e *e2eServer) addr() string { return fmt.Sprintf("127.0.0.1:%d", e.port) }
+// start brings the server up and puts the relay in front of it.
+func (e *e2eServer) start() error {
+	if err := e.startServer(); err != nil {
+		return err
+	}
+	rl, err := newRelay(fmt.Sprintf("127.0.0.1:%d", e.port))
+	if err != nil {
+		e.stop()
+		return err
+	}
+	e.rl = rl
+	return nil
+}
+
+// addr is what clients connect to: the relay.
+func (e *e2eServer) addr() string { return e.rl.addr() }
 
 func bg() (context.Context, context.CancelFunc) {
 	return context.WithTimeout(context.Background(), 10*time.Second)
@@ -91,10 +128,7 @@ func runC14Client(t *rapid.T) {
 	if err := srv.start(); err != nil {
 		t.Skip("inconclusive: standalone does not start: " + err.Error())
 	}
-	defer func() {
-		time.Sleep(30 * time.Millisecond) // let the read goroutines of the server finish closing their iterators
-		srv.stop()
-	}()
+	defer srv.shutdown()
 	drainPanics()
 
 	timeout := time.Duration(rapid.SampledFrom([]int{2000, 2500, 3000, 4000, 6000}).Draw(t, "sessionTimeoutMs")) * time.Millisecond
@@ -229,9 +263,7 @@ func runC14Client(t *rapid.T) {
 	if restart {
 		time.Sleep(time.Duration(rapid.IntRange(100, 900).Draw(t, "restartAtMs")) * time.Millisecond)
 		logf("server restart at %v", time.Since(start).Round(time.Millisecond))
-		time.Sleep(30 * time.Millisecond)
-		srv.stop()
-		if err := srv.start(); err != nil {
+		if err := srv.restart(); err != nil {
 			t.Skip("inconclusive: standalone does not restart: " + err.Error())
 		}
 		start = time.Now() // the restarted server re-arms the session timers
